@@ -50,6 +50,11 @@ def stuck_cause(case, run):
             return 'failure-of-other-endpoint'
         if ev[0] == 'ESubDone' and ev[1] == 1 and o['hops'] and o['hops'][0][0] != 'gitting':
             return 'second-step3-of-deprecated-endpoint'
+        if ev[0] == 'ESubDone' and ev[1] == 0 and o['hops'] and o['hops'][0][0] != 'gitting':
+            # the other endpoint's completion (or failure) already took the
+            # gitting state away; this endpoint's step_3 then fires its
+            # running_trigger from wherever the machine stands
+            return 'step3-after-other-endpoint-left-gitting'
         insub = o['insub']
     return 'unknown'
 
